@@ -150,6 +150,61 @@ func c18Scenarios(tier string) []*core.Scenario {
 			a := regsOf(w)[c.Pick("reg", 8)]
 			return c18Case(mode, mn+" "+a, x86ref.Want{Op: mn, OpSize: w, Ops: []x86ref.WantOp{wreg(a)}}, feat("form", "r", "mn", mn, "w", fmt.Sprint(w), "reg", a))
 		}})
+	// PUSH imm: 6A ib where the value fits a sign-extended byte, 68 iw/id otherwise (mode-sized push)
+	scs = append(scs, &core.Scenario{Name: "push_imm", Bound: -1,
+		Rule:   "PUSH of signed immediates on both sides of -128/127 and of the word/dword limits, written as a literal, a constant expression and an EQU name x BITS: the bytes must decode to that PUSH and be no longer than 2 bytes where the value fits a sign-extended byte, 1 + 2/4 bytes otherwise",
+		Bounds: map[string]any{"immediates": imms},
+		Build: func(c *core.Chooser) *core.Case {
+			mode := modes[c.Pick("mode", 2)]
+			iv := imms[c.Pick("imm", len(imms))]
+			if mode == 16 && (iv < -32768 || iv > 0xffff) {
+				return nil
+			}
+			spell := c.Str("spelling", "literal", "expression", "equ_name")
+			expr := fmt.Sprintf("7-%d", 7-iv)
+			if iv >= 7 {
+				expr = fmt.Sprintf("7+%d", iv-7)
+			}
+			operand, prelude := fmt.Sprint(iv), ""
+			switch spell {
+			case "expression":
+				operand = expr
+			case "equ_name":
+				operand, prelude = "K8", "K8 EQU "+expr+"\n"
+			}
+			stmt := "PUSH " + operand
+			src := bitsHeader(mode) + prelude + "\t" + stmt + "\n"
+			base := bitsHeader(mode) + prelude
+			min := 1 + mode/8
+			if iv >= -128 && iv <= 127 {
+				min = 2
+			}
+			return &core.Case{
+				Key:  fmt.Sprintf("BITS %d|%s", mode, stmt) + map[bool]string{true: " (K8 EQU " + expr + ")", false: ""}[prelude != ""],
+				Feat: feat("form", "push_imm", "mn", "PUSH", "imm", fmt.Sprint(iv), "spelling", spell, "mode", fmt.Sprint(mode)),
+				Srcs: []string{src, base},
+				Judge: func(rs []*core.Result) core.Verdict {
+					v := core.Verdict{}
+					if core.ReportsError(rs[0], rs[1]) {
+						v.Outcome = "diagnosed"
+						return v
+					}
+					out := rs[0].Out
+					in, err := x86ref.Decode(out, mode)
+					if err != nil || in.Len != len(out) || in.Op != "PUSH" || len(in.Ops) != 1 || in.Ops[0].Kind != "imm" || (in.Ops[0].Imm^iv)&(int64(1)<<uint(mode)-1) != 0 {
+						v.Outcome = "not_the_instruction(C01)"
+						v.Skipped = true
+						return v
+					}
+					v.Outcome = "ok"
+					v.Nontrivial = true
+					if len(out) > min {
+						v.Fails = []core.Fail{{Facet: "minimal_len", Dev: fmt.Sprintf("len=%d min=%d", len(out), min), Detail: fmt.Sprintf("emitted % X (%d bytes); shortest valid encoding has %d bytes", out, len(out), min)}}
+					}
+					return v
+				},
+			}
+		}})
 	return scs
 }
 
